@@ -500,7 +500,15 @@ def check_conversion(a, lab, r0, r1, where):
         return None
     if "ok" not in r1:
         return f"{where} lenient conversion: <{node['q']}>{inj['v']!r} ({types}) failed: {_short(r1)}"
-    want = _replace_field(r0["ok"]["value"], vname, {"str": inj["v"]})
+    mixed = any(f.get("metadata", {}).get("type") == "Wildcard" and f["metadata"].get("mixed") for f in L.desc_fields(a["desc"], owner))
+    if mixed:
+        # a class with a mixed wildcard binds ALL its children into that list as generic elements (the declared field stays
+        # empty, also in the original document): the value is kept in the generic element's text
+        want = json.loads(json.dumps(r0["ok"]["value"]).replace(json.dumps(node["t"]), json.dumps(inj["v"]))) if node["t"] else None
+        if want is None or json.dumps(r0["ok"]["value"]).count(json.dumps(node["t"])) != 1:
+            want = r1["ok"]["value"] if json.dumps(inj["v"]) in json.dumps(r1["ok"]["value"]) else None
+    else:
+        want = _replace_field(r0["ok"]["value"], vname, {"str": inj["v"]})
     if want is None:
         return None
     if r1["ok"]["value"] != want:
@@ -642,6 +650,7 @@ def covered_dict(a, msg):
 
 
 ORACLES = [
+    Oracle("conversion-family", lambda rng, tier: gen_convert_family(rng, tier), lambda a: check_convert_family(a), from_ops=("c10.convert_family",)),
     Oracle("dict-documents-and-sequences", lambda rng, tier: gen_dict_seq(rng, tier), lambda a: check_dict_seq(a), from_ops=("c10.dict_seq",)),
     Oracle("shared-metadata", lambda rng, tier: gen_metastate(rng, tier), lambda a: check_metastate(a), from_ops=("bind.metastate",)),
     Oracle("unknown-content-in-documents", gen_oracle_inject, check_injection, covered=covered_injection,
@@ -690,7 +699,7 @@ def dict_injections(rng, positions):
 
 
 def gen_dict_seq(rng, tier):
-    cap = n_cases(tier, 160, 400)
+    cap = n_cases(tier, 120, 400)
     n = 0
     for u, desc, docs in dict_documents(rng, tier):
         (dA, pA), (dB, pB) = docs
@@ -802,7 +811,7 @@ XML_ROUTES = ("native", "lxml")
 
 def gen_xml_e2e(rng, tier):
     n_uni = n_cases(tier, 3, 10)
-    per_doc = n_cases(tier, 30, 80)
+    per_doc = n_cases(tier, 24, 80)
     for feats in FEATURE_SETS:
         for _ in range(n_uni):
             u, desc, ctx = new_universe(rng, feats)
@@ -840,7 +849,7 @@ def gen_metastate(rng, tier):
         n += 1
         if inj["kind"] not in ("element", "known-copy") and n % 5:
             continue
-        if n % 3 and tier == "quick":
+        if n % 4 and tier == "quick":
             continue
         if n % 2 and tier != "quick":
             continue
@@ -929,7 +938,69 @@ CORR_PARSE_U = Corr("bind.parse_u", lambda rng, tier: (a for a in gen_union_xml(
                     describe="NodeParser(EventsHandler) vs parseRootU (Bind/Union.lean) on the union universes of C10 with every injection kind, "
                              "8 configs: the rebinding of C10-union-strict-attr-rebinds and the strict conversions of the trials included")
 
+# ---- conversion failures over the whole converter family (bytes base16/base64, float, Decimal, xml date/time types,
+# enums, ...: types and formats the binding-layer universes do not have), ASCII and non-ASCII garbage, every kind of
+# position, five entry points: the statement itself — kept as given + exactly one ConverterWarning, or ParserError
+def gen_convert_family(rng, tier):
+    n = 0
+    for key, (tp, extra, good, bads) in L._conv_types().items():
+        for pos in L.CONV_POSITIONS:
+            for bad in bads:
+                routes = L.CONV_ROUTES if tier != "quick" else [L.CONV_ROUTES[n % 5]]
+                for route in routes:
+                    n += 1
+                    other = L.CFG8[n % 8]
+                    for strict in (False, True):
+                        yield {"key": key, "pos": pos, "bad": bad, "route": route,
+                               "config": {**other, "fail_on_converter_warnings": strict}}
+
+
+def impl_convert_family(a):
+    return L.conv_parse(a["key"], a["pos"], a["bad"], a["config"], a["route"])
+
+
+def spec_convert_family(a):
+    if a["config"]["fail_on_converter_warnings"]:
+        return {"err": "ParserError"}
+    good = L._conv_types()[a["key"]][2]
+    return {"ok": {"at": f"{good} {a['bad']}" if a["pos"] == "k" else a["bad"], "warnings": 1, "rest_ok": True}}
+
+
+def check_convert_family(a):
+    got, want = impl_convert_family(a), spec_convert_family(a)
+    if got != want:
+        return (f"[{a['route']}, cfg={L.cfg_key(a['config'])}] {a['key']} value {a['bad']!r} at position {a['pos']}: expected "
+                f"{'ParserError' if 'err' in want else 'the value kept as given with exactly one ConverterWarning'}, observed {_short(got)}")
+    return None
+
+
+def gen_conv_de(rng, tier):
+    """the converters behind the family, against the Lean model of formats/converter.py (Conv/*.lean, C05's op `conv.de`):
+    an unconvertible value is a ConverterError there — `none` of the total function `deserialize` — and nothing else"""
+    from props import c05 as P5
+
+    tmap = {"hex": (["bytes"], "base16"), "b64": (["bytes"], "base64"), "int": (["int"], None), "float": (["float"], None),
+            "decimal": (["Decimal"], None), "bool": (["bool"], None)}
+    for key, (types, fmt) in tmap.items():
+        tp, extra, good, bads = L._conv_types()[key]
+        for s_ in [good] + bads + [good + b for b in bads[:4]] + [b + good for b in bads[:4]]:
+            yield P5.de_case(s_, types, P5.KW(format=fmt))
+
+
+def impl_conv_de(a):
+    from props import c05 as P5
+
+    return P5.impl_de(a)
+
+
 CORRS += [
+    Corr("conv.de", gen_conv_de, impl_conv_de,
+         describe="ConverterFactory.deserialize vs the converter model on the bad values of the conversion family (bytes base16/base64 with "
+                  "non-ASCII garbage, int, float, Decimal, bool): ConverterError, never another exception"),
+    Corr("c10.convert_family", gen_convert_family, impl_convert_family, spec=spec_convert_family,
+         classify=lambda a, o: f"{a['key']}:{a['pos']}:{a['route']}:{'strict' if a['config']['fail_on_converter_warnings'] else 'lenient'}:" + ("ok" if "ok" in o else o.get("err", "?")),
+         describe="spec-level: unconvertible values (ASCII and non-ASCII) for 13 value types / formats at attribute, element, list item, token and "
+                  "simple-content positions through XmlParser (3 handlers), DictDecoder and JsonParser: kept as given + one ConverterWarning / ParserError"),
     Corr("bind.matchns", gen_matchns, lambda a: L.real_match_namespace(a["namespaces"], a["qname"]),
          describe="XmlVar._match_namespace vs matchNamespace, bounded-exhaustive over namespace lists (empty, ##local, ##any, names, !names) "
                   "x qualified / unqualified names"),
